@@ -3,8 +3,8 @@ import json
 import corr
 import astgen
 from wclib import import_impl, seeded_rng
-from props import common
-from props.c02 import has_hidden_segment, group_first_segment, n_nonempty, n_spat
+from props import common, globcommon
+from props.c02 import has_hidden_segment, group_first_segment, group_segment_can_be_empty, group_then_wild, n_nonempty, n_spat
 
 RULE = ('proof obligations: Properties/C03.v. correspondence: exact regex text (fnmatch and path flag sets without '
         'DOTMATCH, NODOTDIR, exclusion routes). search: names/paths with a segment beginning with `.` (and `.`/`..` '
@@ -33,7 +33,7 @@ def star_then_wild(toks):
 def flat_classifiers():
     return [
         ('C03-group-then-wild', lambda m: m['name'] is not None and not m['dot'] and m['name'].startswith('.') and
-         m['impl'] is True and m['ub'] is False and m['ast'].startswith('x')),
+         m['impl'] is True and m['ub'] is False and globcommon.gtw_seq(globcommon.split_top(m['ast'], '.'))),
         ('C01-excl-newline', lambda m: m['name'] is not None and m['name'].endswith('\n') and 'xN' in m['ast']
          and m['impl'] is False),
         ('C01-group-dot-guard-repeat', lambda m: m['name'] is not None and m['ast'].startswith('x') and
@@ -46,11 +46,11 @@ def path_classifiers():
         ('C03-star-guard-inside-optional', lambda m: m['name'] is not None and m['impl'] is True and m['ub'] is False and
          has_hidden_segment(m['name']) and any(star_then_wild(t) for t in seg_tokens(m['ast']))),
         ('C03-group-then-wild', lambda m: m['name'] is not None and m['impl'] is True and m['ub'] is False and
-         has_hidden_segment(m['name']) and group_first_segment(m['ast'])),
+         has_hidden_segment(m['name']) and group_then_wild(m['ast'])),
         ('C03-prefix-gstar-hidden', lambda m: m['name'] is not None and m['impl'] is True and m['ub'] is False and
          has_hidden_segment(m['name']) and m['cfg']['mb'] and m['cfg']['gs'] and m['ast'].split(':')[1].split('/')[0] in ('g', 'G')),
         ('C02-group-segment-empty', lambda m: m['name'] is not None and m['impl'] is True and m['ub'] is False and
-         group_first_segment(m['ast']) and
+         group_segment_can_be_empty(m['ast']) and
          (m['cfg']['mb'] or '//' in m['name'] or m['name'].endswith('/') or n_nonempty(m['name']) < n_spat(m['ast'])
           or any(s in ('g', 'G') for s in m['ast'].split(':')[1].split('/')))),
         ('C02-globstar-div-newline', lambda m: m['name'] is not None and m['impl'] is True and m['ub'] is False and
